@@ -182,7 +182,9 @@ func keyPathFn(path string, key []byte) (merkle.KeyPath, error) {
 // the primary's light blocks; an honest node is the witness.
 func (cc *chainCtx) newVerifier(be *backend, trustH int64, seq bool) (*verifier, error) {
 	prim := lhttp.NewWithClient(cc.ch.ChainID, be)
-	wit := lhttp.NewWithClient(cc.ch.ChainID, newBackend(cc, "witness"))
+	wb := newBackend(cc, "witness")
+	wb.cutoff = be.cutoff // the witnesses do not have the withheld heights either
+	wit := lhttp.NewWithClient(cc.ch.ChainID, wb)
 	opts := []light.Option{light.Logger(log.NewNopLogger())}
 	if seq {
 		opts = append(opts, light.SequentialVerification())
@@ -208,7 +210,12 @@ type group struct {
 	skipHonest bool   // the honest calls of this request are made by a sibling group
 	Never      bool   `json:"item_never_committed,omitempty"`
 	Special    bool   `json:"special_key_family,omitempty"`
-	AtTip      bool   `json:"repeat_at_tip,omitempty"` // the node starts lying only after the light client has reached its latest height
+	// Cutoff != 0: the light providers (primary and witness) claim this is their latest height
+	Cutoff int64 `json:"providers_latest_height,omitempty"`
+	// Unverifiable: the check of this request needs the header after the one asked about, and no provider has it
+	// (the tip, or a withheld successor): no verified header can commit to any answer, an error is the only sound reply
+	Unverifiable bool `json:"successor_header_unobtainable,omitempty"`
+	AtTip        bool `json:"repeat_at_tip,omitempty"` // the node starts lying only after the light client has reached its latest height
 }
 
 type caseWitness struct {
@@ -344,6 +351,43 @@ func (cc *chainCtx) buildGroups(c *verdict.Ctx, r *rand.Rand, nTargets int, gidx
 			rq := request{Method: "ABCIQuery", Height: []int64{qh, mid, 0}[i%3], StoreQuery: true, Store: p[0], StoreHex: hexs(p[0]), Key: p[1], KeyHex: hexs(p[1])}
 			add(rq, specialQueryFals(rq, cc), "")
 			gs[len(gs)-1].Special = true
+		}
+	}
+	// successor-header family: BlockResults(h) is checked against header h+1 (LastResultsHash), ABCIQuery at height h
+	// against header h+1 (AppHash).  Ask explicitly for the tip, and for heights whose successor the providers withhold.
+	{
+		type sc struct{ h, cutoff int64 }
+		scs := []sc{{cc.last, 0}}
+		for n := 0; n < 3; n++ {
+			h := hs[r.Intn(len(hs))]
+			if n == 0 {
+				if w := cc.nearestWithTxs(h, cc.last-1); w != 0 {
+					h = w
+				}
+			}
+			if h < cc.last {
+				scs = append(scs, sc{h, h})
+			}
+		}
+		for _, x := range scs {
+			mk := func(rq request, f []fals) {
+				add(rq, append(unchangedFals(), f...), "")
+				g := gs[len(gs)-1]
+				g.skipHonest, g.Unverifiable, g.Cutoff = true, true, x.cutoff
+				lim := x.h
+				if g.TrustH > lim {
+					g.TrustH = hs[r.Intn(len(hs))]
+					for g.TrustH > lim {
+						g.TrustH = hs[r.Intn(len(hs))]
+					}
+				}
+			}
+			mk(request{Method: "BlockResults", Height: x.h}, resultsFals())
+			if k := cc.someKeyAt(r, x.h); k != "" {
+				mk(request{Method: "ABCIQuery", Height: x.h, Key: k, KeyHex: hexs(k)}, queryFals())
+			}
+			mk(request{Method: "ABCIQuery", Height: x.h, StoreQuery: true, Store: "bank", StoreHex: hexs("bank"), Key: "plain", KeyHex: hexs("plain")},
+				specialQueryFals(request{StoreQuery: true, Store: "bank", Key: "plain"}, cc))
 		}
 	}
 	// items that were never committed: the honest node has nothing to say; a lying node answers with the
@@ -503,7 +547,12 @@ func (cc *chainCtx) runGroup(c *verdict.Ctx, g *group) {
 		}
 		return w
 	}
-	warm, err := cc.newVerifier(newBackend(cc, "node"), g.TrustH, g.Seq)
+	node := func() *backend {
+		b := newBackend(cc, "node")
+		b.cutoff = g.Cutoff
+		return b
+	}
+	warm, err := cc.newVerifier(node(), g.TrustH, g.Seq)
 	if err != nil {
 		c.Violation("light-client-honest-initialisation-refused", "light.NewClient failed against an honest node: "+err.Error(), wit("none", true, err, judgement{}, nil, ""))
 		return
@@ -579,7 +628,7 @@ func (cc *chainCtx) runGroup(c *verdict.Ctx, g *group) {
 			if target == 0 {
 				target = cc.last
 			}
-			be := newBackend(cc, "node")
+			be := node()
 			if !g.AtTip {
 				be.set(g.falsOf, target, mutate)
 			}
@@ -632,7 +681,7 @@ func (cc *chainCtx) runGroup(c *verdict.Ctx, g *group) {
 				v = warm
 			} else {
 				var ierr error
-				v, ierr = cc.newVerifier(newBackend(cc, "node"), g.TrustH, g.Seq)
+				v, ierr = cc.newVerifier(node(), g.TrustH, g.Seq)
 				if ierr != nil {
 					c.HarnessError("chain %d group %d: light client init failed: %v", cc.spec.Idx, g.Idx, ierr)
 					continue
@@ -661,6 +710,14 @@ func (cc *chainCtx) runGroup(c *verdict.Ctx, g *group) {
 		if panicked {
 			c.Count("panics_on_falsified."+m+": "+f.Name+": "+err.Error(), 1)
 		}
+		if err != nil && g.Unverifiable {
+			c.Count("successor_unobtainable."+m+".refused", 1)
+			if g.Cutoff == 0 {
+				c.Count("successor_unobtainable."+m+".at_tip", 1)
+			} else {
+				c.Count("successor_unobtainable."+m+".successor_withheld", 1)
+			}
+		}
 		if err != nil {
 			c.Count("verdict."+m+".refused", 1)
 			if c.WantSample() && fr.Intn(300) == 0 {
@@ -671,6 +728,32 @@ func (cc *chainCtx) runGroup(c *verdict.Ctx, g *group) {
 		j, extra := cc.judge(&g.Req, resp)
 		if extra {
 			c.Count("not_claimed.commit_relayed_with_an_invalid_signature_beyond_two_thirds", 1)
+		}
+		// the relayed answer names its own height: its check needs the header after THAT height
+		unverifiable := false
+		if g.Unverifiable {
+			limit := cc.last
+			if g.Cutoff != 0 {
+				limit = g.Cutoff
+			}
+			switch v := resp.(type) {
+			case *ctypes.ResultBlockResults:
+				unverifiable = v.Height+1 > limit
+			case *ctypes.ResultABCIQuery:
+				unverifiable = v.Response.Height+1 > limit
+			}
+			if unverifiable {
+				c.Count("successor_unobtainable."+m+".RELAYED", 1)
+			} else {
+				c.Count("successor_unobtainable."+m+".relayed_record_of_a_height_with_obtainable_successor", 1)
+			}
+		}
+		if j.OK && unverifiable {
+			// true of the chain, but no header that commits to it was (or could be) verified: not consistent with
+			// any VERIFIED header
+			c.Violation(lower(m)+"-relays-answer-no-verified-header-commits-to", fmt.Sprintf("%s relayed, without error, an answer about height %d although the header after it, which alone commits to it, is not available from any provider (%s)", m, g.Req.Height, f.Name),
+				wit(f.Name, useWarm, nil, j, resp, ""))
+			continue
 		}
 		if j.OK {
 			// true of the chain, hence consistent with the verified header.  Whether it is the item that was asked
@@ -913,7 +996,11 @@ func Run(c *verdict.Ctx) int {
 								c.HarnessError("chain %d group %d (%s): harness panic: %v", cc.spec.Idx, g.Idx, g.Req.Method, rec)
 							}
 						}()
+						t0 := time.Now()
 						cc.runGroup(c, g)
+						if d := time.Since(t0); d > 20*time.Second {
+							c.Count("slow_groups_over_20s."+g.Req.Method, 1)
+						}
 					}()
 				}
 			}()
